@@ -30,9 +30,10 @@ const (
 	wDupP               // create /r/w/p again (fails when /r/w/p exists)
 	wUpdateP            // update /r/w/p (pre-window key) unguarded-by-thread: uses revision 0 => create semantics, fails when live
 	wDeleteP            // delete /r/w/p (unguarded)
+	wUpdStaleP          // update /r/w/p naming a revision it never had: a failed condition on the PUT path
 )
 
-var wopNames = [...]string{"createX", "updateX", "deleteX", "createY", "createOut", "dupP", "upd0P", "deleteP"}
+var wopNames = [...]string{"createX", "updateX", "deleteX", "createY", "createOut", "dupP", "upd0P", "deleteP", "updStaleP"}
 
 type c05Cfg struct {
 	cache    int
@@ -210,6 +211,8 @@ func c05Scenario(c c05Cfg) *mc.Scenario {
 						op.Key, op.Kind = "/r/w/p", rUpd0
 					case wDeleteP:
 						op.Key, op.Kind = "/r/w/p", rDel0
+					case wUpdStaleP:
+						op.Key, op.Kind, op.Exp = "/r/w/p", rUpdStale, base-3
 					}
 					w.do(op)
 					if op.OK && op.Key == "/r/w/x" && !op.Kind.isDelete() {
@@ -348,7 +351,7 @@ func c05Configs(tier string) []c05Cfg {
 	w1 := [][]wop{{wCreateX, wUpdateX, wDeleteX}}
 	w1b := [][]wop{{wCreateX, wCreateOut, wCreateY}}
 	w2 := [][]wop{{wCreateX, wUpdateX}, {wCreateY, wDupP}}
-	wfail := [][]wop{{wDupP, wCreateX, wUpdateP}}
+	wfail := [][]wop{{wDupP, wUpdStaleP, wCreateX, wUpdateP}}
 	w3 := [][]wop{{wCreateX, wUpdateX, wDeleteX, wCreateX}}
 	starts := []string{"zero", "below", "oldest", "inside", "newest", "newest+1", "far"}
 	// registration races: every start kind against one writer, small and large cache, eager consumer
